@@ -148,6 +148,22 @@ def _compile_consts(repo, out, notes):
     out.append("def maxDowngrade : Nat := %d" % c["MAX_DOWNGRADE"])
 
 
+@section
+def _skeletons(repo, out, notes):
+    from rv import skeleton
+    path = os.path.join(repo, "req_compile/metadata/source.py")
+    for fname in ["_fetch_from_setup_py", "_parse_setup_py", "_build_egg_info", "_build_wheel", "_fetch_from_source"]:
+        term, res, sites, err = skeleton.function_skeleton(path, fname)
+        if err:
+            notes.append("skeleton of %s: UNTRANSLATABLE (%s)" % (fname, err))
+        out.append("/-- regenerated from req_compile/metadata/source.py:%s%s -/" % (fname, " — UNTRANSLATABLE: " + err.replace("-/", "- /") if err else ""))
+        out.append("def skel%s : PT.Stmt := %s" % (fname, term))
+        out.append("def skelRes%s : List String := %s" % (fname, lean_list(lean_str(r) for r in res)))
+        flat = [x for k in sorted(sites) for x in sites[k]]
+        out.append("def patchSites%s : List String := %s" % (fname, lean_list(lean_str(r) for r in flat)))
+    return ["ReqVerif.Model.Patch"]
+
+
 def generate(repo):
     notes = []
     out = [
